@@ -115,7 +115,7 @@ def collect(ctx: Ctx, bodies):
     loop = vloop.new_loop()
     net = vloop.Net(loop)
     ac = RawStateDevice()
-    landev.LanDevice(loop, net, ac, version=2)
+    dev = landev.LanDevice(loop, net, ac, version=2)
     vectors = []
 
     async def go():
@@ -125,7 +125,7 @@ def collect(ctx: Ctx, bodies):
             d = AC(ip="10.0.0.1", port=6444, device_id=k)
             ctxname = ""
             try:
-                if k % 6 == 1:
+                if k % 12 == 1:
                     ctxname = " [after get_capabilities of a unit advertising little]"
                     await d.get_capabilities()
                 elif k % 6 == 3 and k > 0:
@@ -134,7 +134,7 @@ def collect(ctx: Ctx, bodies):
                     await d.refresh()
                     from .c10 import rand_state, apply_state
                     apply_state(AC, d, rand_state(ctx.rng), ctx.rng)
-                elif k % 6 == 5 and k > 0:
+                elif k % 12 == 5 and k > 0:
                     # an unsolicited report of ANOTHER state reached the idle client before this refresh
                     ctxname = " [an older unsolicited report queued]"
                     other = bytes(bodies[k - 1][1])
@@ -143,7 +143,35 @@ def collect(ctx: Ctx, bodies):
                     ac.raw = bytes(body)
                     net.conns[-1].feed(landev.v2_wrap(acdev.resp_frame(5, other, "crc"), k))
                     await asyncio.sleep(0.2)
-                await d.refresh()
+                elif k % 12 == 7 and k > 0:
+                    # a report damaged on the serial line (transport intact, frame checksum right, body check byte wrong) reached the idle client: it is
+                    # dropped, the answer behind it is used
+                    ctxname = " [a damaged unsolicited report queued]"
+                    other = bytes(bodies[k - 1][1])
+                    ac.raw = other
+                    await d.refresh()
+                    ac.raw = bytes(body)
+                    fr = bytearray(acdev.resp_frame(5, other, "crc"))
+                    fr[-2] ^= 0x5A
+                    fr[-1] = acdev.csum(bytes(fr[1:-1]))
+                    net.conns[-1].feed(landev.v2_wrap(bytes(fr), k))
+                    await asyncio.sleep(0.2)
+                elif k % 12 == 11 and k > 0:
+                    # the TCP segment that completes the answer also carries the first bytes of a further report; its rest follows 0.3 s later
+                    ctxname = " [answer and the beginning of a further report in one segment]"
+                    nxt = landev.v2_wrap(acdev.resp_frame(5, bytes(body), "crc"), k)
+
+                    def straddle(tr, packets, nxt=nxt):
+                        cut = [1, 6, 10, 40][k % 4]
+                        loop.call_later(0.0005, tr.feed, b"".join(packets) + nxt[:cut])
+                        loop.call_later(0.3, tr.feed, nxt[cut:])
+                    dev.respond = straddle
+                try:
+                    await d.refresh()
+                finally:
+                    if dev.respond is not dev._respond_soon:
+                        dev.respond = dev._respond_soon
+                        await asyncio.sleep(0.5)
                 vectors.append({"tag": tag + ctxname, "body": B(body), "style": ac.rstyle, "online": bool(d.online and d.supported),
                                 "attrs": observe(d), "exc": "none"})
             except Exception as e:  # noqa: BLE001
